@@ -882,6 +882,21 @@ def decide_extended_transform_flag(codec_features, flag_name, required):
         raise IncompatibleLevelAndExtendedTransformParametersError(codec_features)
 
 
+def assert_extended_transform_value_allowed(codec_features, key):
+    """
+    Check that the level permits the value which will be coded for the
+    extended transform parameter 'key' (wavelet_index_ho or dwt_depth_ho),
+    raising
+    :py:exc:`~vc2_conformance.encoder.exceptions.IncompatibleLevelAndExtendedTransformParametersError`
+    if it does not.
+    """
+    constrained_values = codec_features_to_trivial_level_constraints(codec_features)
+    if codec_features[key] not in allowed_values_for(
+        LEVEL_CONSTRAINTS, key, constrained_values
+    ):
+        raise IncompatibleLevelAndExtendedTransformParametersError(codec_features)
+
+
 def make_extended_transform_parameters(codec_features):
     """
     Create a :py:class:`vc2_conformance.bitstream.ExtendedTransformParameters`
@@ -898,6 +913,7 @@ def make_extended_transform_parameters(codec_features):
     )
     if etp["asym_transform_index_flag"]:
         etp["wavelet_index_ho"] = codec_features["wavelet_index_ho"]
+        assert_extended_transform_value_allowed(codec_features, "wavelet_index_ho")
 
     etp["asym_transform_flag"] = decide_extended_transform_flag(
         codec_features,
@@ -906,6 +922,7 @@ def make_extended_transform_parameters(codec_features):
     )
     if etp["asym_transform_flag"]:
         etp["dwt_depth_ho"] = codec_features["dwt_depth_ho"]
+        assert_extended_transform_value_allowed(codec_features, "dwt_depth_ho")
 
     return etp
 
